@@ -43,6 +43,12 @@ def cases(tier, rng):
         for co in (False, True):
             for en in (True, False):
                 yield "invariant_cond", dcase("invariant_cond", condArgs=args, condMandatory=mand, coroFn=co, enabled=en)
+    # variadic parameters of an invariant condition are parameters like any other: only `self` may be demanded
+    for args, var in [(["args"], {"args": "varPos"}), (["kw"], {"kw": "varKw"}), (["self", "rest"], {"rest": "varPos"}),
+                      (["self", "opts"], {"opts": "varKw"}), (["a", "k"], {"a": "varPos", "k": "varKw"}),
+                      (["self", "a", "k"], {"a": "varPos", "k": "varKw"})]:
+        for en in (True, False):
+            yield "invariant_cond", dcase("invariant_cond", condArgs=args, condMandatory=args, coroFn=False, enabled=en, variadic=var)
     for name in (None, "n"):
         for cargs in ([], ["x"], ["x", "y"], ["x", "y", "z"]):
             for en in (True, False):
